@@ -151,5 +151,10 @@ func (s *StatisticalAnalysis) Quantile(p float64) float64 {
 		return 0.0
 	}
 	idx := int(float64(len(s.orderedValues)) * p)
+	if idx < 0 {
+		idx = 0
+	} else if idx >= len(s.orderedValues) {
+		idx = len(s.orderedValues) - 1 // p == 1.0 (--quantile 100) is the largest sample
+	}
 	return s.orderedValues[idx]
 }
